@@ -19,7 +19,7 @@ META = dict(
           "terms over the same RNG draw indices in every schedule; constructing any built-in dissimilarity makes no numpy RNG call (its self-check uses "
           "the stdlib generator); repeating the computation in one process consumes a fresh, equally shaped block of draws.",
     trusted="z3; jobs are atomic with respect to shared state (C14 shows they do not write to it); the real samplers draw every sample in the submitting thread (C15/C16 run them single-threaded)",
-    bounds=dict(quick="n_samples in {1,2} (+ second batch of <= 2), all job orders; gamma_cat / gamma_k with 2 chance alignments", thorough="n_samples = 3 (24 orders), second batch <= 3"),
+    bounds=dict(quick="(+ both real samplers, one seeded generator, every order of a 3-name ground truth: same sample) n_samples in {1,2} (+ second batch of <= 2), all job orders; gamma_cat / gamma_k with 2 chance alignments", thorough="n_samples = 3 (24 orders), second batch <= 3"),
     outside="pre-emptive interleavings inside a job (numba nogil code, CBC). The process hash seed cannot be seen by the symbolic model (its hash stand-in makes "
             "sets order-insensitive): it is covered only by a concrete cross-check on the real build, run with every check - the same seeded computations (both "
             "samplers, exact / fast / soft, gamma, gamma-cat, gamma-k) under PYTHONHASHSEED 0 / 4242 / 31337 with 1 / 16 / 3 workers must print identical numbers; "
@@ -41,6 +41,8 @@ def configs(tier):
         out.append(dict(key=f"schedule,{meth},chance=2", mode=meth, n=2, cost=300))
     out.append(dict(key="dissimilarity-constructors-make-no-numpy-rng-call", mode="ctor", cost=10))
     out.append(dict(key="repetition,exact,n_samples=2", mode="repeat", n=2, prec=None, cost=50))
+    # an unordered ground-truth collection iterates in an order that depends on the process hash seed: the samplers must hold it in one order
+    out.append(dict(key="ground-truth-order-does-not-reach-the-draws", mode="gtorder", cost=10))
     return out
 
 
@@ -135,6 +137,51 @@ def harness(cfg, ns):
                 ds.PrecomputedCategoricalDissimilarity(SortedSet(["a", "b"]), real_np.array([[0, 1], [1, 0]], dtype=object))]
         return [Obl("dissimilarity-constructors-make-no-numpy-rng-call", not rng.log and len(made) == 7, lambda m: dict(kind="ctor"))]
 
+    def h_gtorder(ctx):
+        co, sa, Segment = ns.co, ns.sa, ns.Segment
+        c = co.Continuum()
+        names = ["zoe", "abe", "mia", "bob"]
+        for i, a in enumerate(names):
+            c.add(a, Segment(10.0 * i, 10.0 * i + 4), "xy"[i % 2])
+        rz = lambda m: dict(kind="gtorder")   # noqa: E731
+        obls = []
+        import itertools as _it
+        import numpy as _rnp
+
+        class SeededRNG:
+            """numpy's real seeded generator behind the facade's object arrays (weights converted back to floats)"""
+
+            def __init__(self, seed):
+                self.r = _rnp.random.RandomState(seed)
+
+            def normal(self, mu=0.0, sd=1.0, size=None):
+                return float(self.r.normal(float(mu), float(sd)))
+
+            def uniform(self, a=0.0, b=1.0, size=None):
+                return float(self.r.uniform(float(a), float(b)))
+
+            def random(self, size=None):
+                return float(self.r.random_sample())
+
+            def choice(self, seq, size=None, replace=True, p=None):
+                seq = list(seq)
+                k = self.r.choice(len(seq), p=None if p is None else _rnp.array([float(x) for x in p], dtype=float))
+                return seq[int(k)]
+
+            def seed(self, *a):
+                pass
+        for cls in (sa.ShuffleContinuumSampler, sa.StatisticalContinuumSampler):
+            seen = []
+            for order in _it.permutations(["zoe", "abe", "mia"]):
+                s_ = cls()
+                ns.np.std_calls = []
+                ns.np.random = SeededRNG(5)      # the same concrete seeded generator for every order (no symbol in this configuration)
+                s_.init_sampling(c, list(order))
+                smp = s_.sample_from_continuum
+                seen.append([(a, float(u.segment.start), float(u.segment.end), u.annotation) for a, u in smp])
+            obls.append(Obl(f"same-seeded-sample-whatever-order-the-ground-truth-is-given-in[{cls.__name__}]", all(x == seen[0] for x in seen), rz))
+        return obls
+
     def h_repeat(ctx):
         """two computations in one process: the second consumes the next, equally shaped, block of samples"""
         rec = dict(alignments=[], measure=[], inits=[], drawn_in_job=[])
@@ -165,12 +212,12 @@ def harness(cfg, ns):
                 Obl("second-run-uses-the-next-n-samples", t2 == [("sample", n + i) for i in range(n)], rz),
                 Obl("no-sample-drawn-inside-a-job", not any(rec["drawn_in_job"]), rz),
                 Obl("input-state-not-carried-over", c.best_window_size == float("inf") and len(rec["inits"]) == 2, rz)]
-    return dict(gamma_cat=h_gk, gamma_k=h_gk, ctor=h_ctor, repeat=h_repeat)[mode]
+    return dict(gamma_cat=h_gk, gamma_k=h_gk, ctor=h_ctor, repeat=h_repeat, gtorder=h_gtorder)[mode]
 
 
 def real_checks(tier):
     """concrete cross-checks the symbolic model cannot see: the process hash seed and the real worker count"""
-    return [dict(kind="hashseed", name="seeded gamma identical under PYTHONHASHSEED=0 / 4242 and with 1 / 16 workers")]
+    return [dict(kind="hashseed", name="seeded gamma identical under PYTHONHASHSEED=0 / 4242 / 31337 and with 1 / 16 / 3 workers (ground truth none or an unordered collection)")]
 
 
 HASHSEED_SCRIPT = r"""
@@ -189,8 +236,11 @@ for i, a in enumerate(names):
     for j in range(4):
         c.add(a, Segment(10 * j + i, 10 * j + 4 + i + (j % 2)), ["verb", "noun", "adj"][(i + j) % 3])
 out = []
-for sampler in (None, pa.ShuffleContinuumSampler()):
-    for kw in (dict(), dict(fast=True), dict(soft=True)):
+# ground-truth annotators: none, and given as unordered collections (their iteration order depends on the process hash seed)
+for sampler, kw in [(smp, k) for smp in (None, pa.ShuffleContinuumSampler()) for k in (dict(), dict(fast=True), dict(soft=True))] + \
+                   [(smp, dict(ground_truth_annotators=g)) for smp in (None, pa.ShuffleContinuumSampler())
+                    for g in ({"zoe", "abe", "mia"}, frozenset(["bob", "zoe", "mia"]), {"abe": 1, "zoe": 2, "bob": 3}.keys())]:
+    if True:
         np.random.seed(77)
         r = c.compute_gamma(pa.CombinedCategoricalDissimilarity(alpha=2), n_samples=4, sampler=sampler, **kw)
         out.append([round(float(r.observed_disorder), 6), [round(float(a.disorder), 6) for a in r.chance_alignments], round(float(r.gamma), 6),
@@ -230,6 +280,26 @@ def replay(case):
     from pyannote.core import Segment
     from unittest import mock
     import numpy as np
+    if case.get("kind") == "gtorder":
+        import itertools as _it
+        import pygamma_agreement as pa
+        from pyannote.core import Segment
+        c = pa.Continuum()
+        for i, a in enumerate(["zoe", "abe", "mia", "bob"]):
+            c.add(a, Segment(10 * i, 10 * i + 4), "xy"[i % 2])
+        bad = []
+        import numpy as np
+        for cls in (pa.ShuffleContinuumSampler, pa.StatisticalContinuumSampler):
+            seen = []
+            for order in _it.permutations(["zoe", "abe", "mia"]):
+                s_ = cls()
+                np.random.seed(5)
+                s_.init_sampling(c, list(order))
+                smp = s_.sample_from_continuum
+                seen.append([(a, float(u.segment.start), float(u.segment.end), u.annotation) for a, u in smp])
+            if any(x != seen[0] for x in seen):
+                bad.append(f"{cls.__name__}: the same seed gives different samples when the ground truth is given in another order (the order of a set depends on the process hash seed)")
+        return dict(reproduced=bool(bad), detail="; ".join(bad))
     if case.get("kind") == "ctor":
         calls = []
         orig = {k: getattr(np.random, k) for k in ("uniform", "normal", "random", "randint", "choice")}
